@@ -33,6 +33,7 @@ CHECKS['C02'] = dict(
         U('inpkg', 'TestVerifC02_Witness', q(160000, 16), q(3200000, 16, cap=1500), pkg='algo'),
         U('inpkg', 'TestVerifC02_Long', q(3200, 16), q(32000, 16, cap=1500), pkg='algo'),
         U('inpkg', 'FuzzVerifC02_Witness', None, q(fuzz=120), pkg='algo'),
+        U('inpkg', 'TestVerifC02_WitnessAcrossCancelledSearches', q(640, 16, cap=900), q(12800, 16, cap=3000, race=True), pkg='src'),
     ])
 
 CHECKS['C03'] = dict(
@@ -187,6 +188,7 @@ CHECKS['C12'] = dict(
         U('inpkg', 'TestVerifC12_FishModel', q(20000, 2), q(400000, 4), pkg='src'),
         U('inpkg', 'TestVerifC12_TmuxRequote', q(3200, 16, cap=400), q(64000, 16, cap=1800), pkg='src'),
         U('inpkg', 'FuzzVerifC12_Tmux', None, q(fuzz=60), pkg='src'),
+        U('proc', 'TestVerifC12_ProcPlusList', q(192, 16, cap=900), q(3200, 16, cap=3000), needs_fzf=True),
     ])
 
 CHECKS['C18'] = dict(
@@ -273,13 +275,14 @@ CHECKS['C13'] = dict(
     title='Loading and searching run concurrently without interfering',
     rule='(a) a loader goroutine appending 50-2500 items with generated yield points while 1-8 snapshots (with/without --tail) are taken and scanned (sorted) in 1-32 partitions with a shared cache, the number of matching lines (0-30 of 100) and their relevance varying from chunk to chunk: every snapshot is a contiguous frozen run of the input, '
          'its items never change, every search equals the sequential filter of its snapshot; (b) exhaustive: a superseding request injected (hook) after the k-th counted chunk for every k, lists of 1..6 (quick) / 1..12 (thorough) chunks, partitions {1,3,32}, 8 query pairs: '
-         'the superseded search publishes nothing, the published list is the filter of the superseding request; (c) EventBox hand-off with 1-3 producers; (d) the real loader (Reader.feed over scripted reads cutting records anywhere) filling the list while snapshots are taken and searched: snapshot contents equal the records and never change afterwards; (e) process level: a growing stream read with --tail N while the query is switched back and forth: at quiescence the list is the filter of exactly the last N records. Thorough tier runs (a)-(c) under the Go race detector. '
+         'the superseded search publishes nothing, the published list is the filter of the superseding request; (c) EventBox hand-off with 1-3 producers; (d) the real loader (Reader.feed over scripted reads cutting records anywhere) filling the list while snapshots are taken and searched: snapshot contents equal the records and never change afterwards; (f) searches overtaken by a clearing of the chunk cache (exclude) finish chunks afterwards: searches started after the clearing equal a fresh evaluation; (e) process level: a growing stream read with --tail N while the query is switched back and forth: at quiescence the list is the filter of exactly the last N records. Thorough tier runs (a)-(c) under the Go race detector. '
          'non-trivial = a snapshot taken while the last chunk was partially filled (a); a cancellation strictly inside the scan (b)',
     assumptions=['goroutine interleavings are sampled by the Go scheduler; only cancellation points are enumerated (DESIGN.md section 6)'],
     units=[
         U('inpkg', 'TestVerifC13_CancellationPoints', q(1, 16, cap=600), q(1, 16, cap=2400, race=True), pkg='src'),
         U('inpkg', 'TestVerifC13_LoadWhileSearching', q(1600, 16, cap=600), q(16000, 16, cap=2400, race=True), pkg='src'),
         U('inpkg', 'TestVerifC13_FeedWhileSearching', q(3200, 16, cap=600), q(32000, 16, cap=2400, race=True), pkg='src'),
+        U('inpkg', 'TestVerifC13_LateCacheWrites', q(3200, 16, cap=600), q(64000, 16, cap=2400), pkg='src'),
         U('proc', 'TestVerifC13_ProcTailStream', q(192, 16, cap=900), q(3200, 16, cap=3000), needs_fzf=True),
         U('inpkg', 'TestVerifC13_EventBox', q(3200, 8), q(32000, 16, cap=1800, race=True), pkg='util'),
     ])
@@ -307,6 +310,7 @@ CHECKS['C14'] = dict(
         U('proc', 'TestVerifC14_Sessions', q(320, 16, cap=900), q(6400, 16, cap=3000), needs_fzf=True),
         U('proc', 'TestVerifC14_PreviewTempFileAtExit', q(320, 16, cap=900), q(6400, 16, cap=3000), needs_fzf=True),
         U('proc', 'TestVerifC14_Regress', q(16, 4, cap=300), q(64, 8, cap=600), needs_fzf=True),
+        U('proc', 'TestVerifC14_SearchProgressWhileExecuting', q(16, 8, cap=900), q(160, 8, cap=3000), needs_fzf=True),
         U('proc', 'TestVerifC14_HeaderLinesWhileSearching', q(32, 8, cap=600), q(320, 16, cap=1800), needs_fzf=True),
     ])
 
